@@ -109,6 +109,22 @@ pub fn check_stream(c: &StreamCase) -> Check {
         ensure!(again == decoded, "framing:depends-on-read-chunking", "decode_messages over a reader delivering {} bytes per read differs from the Cursor decode", step);
     }
 
+    // (1c) the same stream behind a prefix, with the reader positioned at the start of the stream: decoding must not
+    // depend on the absolute position of the reader (type-31 pointers are relative to the message start)
+    {
+        let lead = 1 + (c.cut_selectors.len() * 7 + c.trailing.len()) % 61;
+        let mut shifted = vec![0xA5u8; lead];
+        if lead >= 24 {
+            shifted[..9].copy_from_slice(b"AR2V0006.");
+        }
+        shifted.extend_from_slice(&with_tail);
+        let mut cur = Cursor::new(&shifted[..]);
+        cur.set_position(lead as u64);
+        let again = no_panic("decode_messages", || decode_messages(&mut cur))?
+            .map_err(|e| Fail::new("framing:wellformed-stream-rejected-at-offset", format!("reader positioned {} bytes into its source: {:?}", lead, e)))?;
+        ensure!(again == decoded, "framing:depends-on-reader-position", "decode_messages from a reader positioned {} bytes into its source differs from the decode at position 0", lead);
+    }
+
     // (3) the same through an LDM record (unless the bytes happen to look compressed: 'BZ' at 4..6)
     if !(stream.len() >= 6 && &stream[4..6] == b"BZ") {
         let rec = Record::new(stream.clone());
